@@ -18,7 +18,7 @@ if len(runs) > 1:
 rows = []
 for m in sorted(os.listdir(os.path.join(HERE, "seeded"))):
     d = os.path.join(HERE, "seeded", m)
-    if not os.path.isdir(d):
+    if not os.path.isdir(d) or m.startswith("_"):
         continue
     patch = open(os.path.join(d, "patch.diff")).read()
     files = sorted(set(re.findall(r"^\+\+\+ b/(\S+)", patch, re.M)))
